@@ -8,6 +8,9 @@ kind of element, every position kind and every wrapper shape occurs at least onc
 type kind also occurs as an *orphan* (not referenced by anything) which can be removed or change
 kind without invalidating the rest.
 
+Enums carry internal (Python) values different from their names -- integers, and a permutation of the
+names -- which only the constructor route can express (through SDL the value is the name).
+
 No recursive input objects: building those from SDL overflows the stack on the pinned tree (a C11
 matter) and would only hide what these checks look for.  No input-object-typed defaults either:
 build_schema fills nested field defaults into them, so that editing one input field legitimately
@@ -50,7 +53,7 @@ def kitchen():
             ),
             T("object", "Other", fields=[F("val", "Float")]),
             T("union", "Any", members=["Obj", "Other"], desc="a union"),
-            T("enum", "Kind", values=[V("A"), V("B", dep="old"), V("C", desc="third")], desc="an enum"),
+            T("enum", "Kind", values=[V("A", value=1), V("B", dep="old", value=2), V("C", desc="third", value=3)], desc="an enum"),
             T(
                 "input",
                 "Filter",
@@ -64,7 +67,7 @@ def kitchen():
             T("object", "Lone", fields=[F("x", "Int")]),
             T("interface", "LoneI", fields=[F("x", "Int")]),
             T("union", "LoneU", members=["Lone"]),
-            T("enum", "LoneE", values=[V("X"), V("Y")]),
+            T("enum", "LoneE", values=[V("X", value="Y"), V("Y", value="X")]),  # internal values: a permutation of the names
             T("input", "LoneIn", fields=[A("z", "Int")]),
             T("scalar", "LoneS"),
         ],
@@ -112,7 +115,7 @@ def members():
             T("object", "Delta", fields=[F("a", "Int")]),
             T("union", "U", members=["Alpha", "Beta", "Gamma"]),
             T("union", "W", members=["Delta"]),
-            T("enum", "En", values=[V("P"), V("Q"), V("R")]),
+            T("enum", "En", values=[V("P", value=10), V("Q", value=20), V("R", value=30)]),
         ],
         "directives": [
             {"name": "loc", "locations": ["FIELD", "QUERY", "MUTATION"], "args": []},
